@@ -547,15 +547,25 @@ func (e *CoreExtension) functionRange(args ...interface{}) (interface{}, error) 
 	result := make([]interface{}, 0)
 
 	// For compatibility with existing tests, keep the end index inclusive
+	// The loops stop as soon as the distance left to end is smaller than the step, so
+	// that i += step can never wrap around (range(1, MaxInt) style bounds would
+	// otherwise never terminate). Distances are computed as unsigned numbers, which
+	// is exact for every pair of ints.
 	if step > 0 {
 		// For positive step, include the end value (end is inclusive)
 		for i := start; i <= end; i += step {
 			result = append(result, i)
+			if uint(end)-uint(i) < uint(step) {
+				break
+			}
 		}
 	} else {
 		// For negative step, include the end value (end is inclusive)
 		for i := start; i >= end; i += step {
 			result = append(result, i)
+			if uint(i)-uint(end) < -uint(step) {
+				break
+			}
 		}
 	}
 
